@@ -123,11 +123,7 @@ func (r *reference) resolveRef(cfg *Config, opts *options) (value, error) {
 		}
 
 		v, err = r.Path.GetValue(cfg, opts)
-		if err == nil {
-			if v == nil {
-				break
-			}
-
+		if err == nil && v != nil {
 			return v, nil
 		}
 
